@@ -716,7 +716,7 @@ def gen(seed, run, tier='quick'):
         operands = [p['s1'] for p in probes]
         for _ in range(hr.choice([0, 0, 2, 4])):
             if syms:
-                k = hr.randrange(13)
+                k = hr.randrange(14)
                 # mostly on operands of the probes; the allocating kinds
                 # mostly on operands of quantized types
                 pool_ = quantized if quantized and k in (4, 6, 7, 8, 9) \
@@ -819,6 +819,14 @@ def run_world(arg):
         if u1 is None or (need2 and u2 is None):
             return ['operand_missing'], None
         a1, a2 = amount(p['a1'], p['id']), amount(p['a2'], p['id'] // 3)
+        # the operands of a probe are objects the caller keeps (a quantity
+        # is a value: whatever happens to it elsewhere, it stays what it is)
+        q1 = held.setdefault(('1', p['id']), None) or held.__setitem__(
+            ('1', p['id']), a1 * u1) or held[('1', p['id'])]
+        q2 = None
+        if need2:
+            q2 = held.setdefault(('2', p['id']), None) or held.__setitem__(
+                ('2', p['id']), a2 * u2) or held[('2', p['id'])]
         try:
             if form == 'uu*':
                 r = u1 * u2
@@ -829,21 +837,21 @@ def run_world(arg):
             elif form == 'u**f':
                 r = u1 ** float(p['n'])
             elif form == 'qq*':
-                r = (a1 * u1) * (a2 * u2)
+                r = q1 * q2
             elif form == 'qq/':
-                r = (a1 * u1) / (a2 * u2)
+                r = q1 / q2
             elif form == 'qu*':
-                r = (a1 * u1) * u2
+                r = q1 * u2
             elif form == 'qu/':
-                r = (a1 * u1) / u2
+                r = q1 / u2
             elif form == 'uq*':
-                r = u1 * (a2 * u2)
+                r = u1 * q2
             elif form == 'k/u':
                 r = a1 / u1
             elif form == 'k/q':
                 r = a1 / (a2 * u1)
             elif form == 'q**':
-                r = (a1 * u1) ** p['n']
+                r = q1 ** p['n']
             else:
                 raise core.HarnessError(form)
         except core.HarnessError:
@@ -854,6 +862,8 @@ def run_world(arg):
             return ['ok'] + value_of(r), r
         except Exception as e:      # noqa
             return ['unobservable', type(e).__name__], r
+
+    held = {}
 
     def other_operation(k, s1, s2):
         from decimalfp import ROUNDING
@@ -889,6 +899,21 @@ def run_world(arg):
             elif k == 11:
                 sum([1 * u, 2 * u], 0 * u)
                 (5 * u) - (5 * u)
+            elif k == 13:
+                # totals and halves computed from the kept operands with
+                # augmented assignments on other names
+                from quantity.utils import sum as qsum
+                for q in list(held.values())[:8]:
+                    if q is None:
+                        continue
+                    t = +q
+                    t *= 2
+                    t /= 4
+                    t = qsum([q])
+                    t *= 3
+                    t = q
+                    t += q
+                    t -= q
             elif k == 12:
                 # a burst of several hundred distinct operations (whatever
                 # they yield): bounded memos start evicting
@@ -927,6 +952,9 @@ def run_world(arg):
             import decimalfp
             decimalfp.set_dflt_rounding_mode(
                 getattr(decimalfp.ROUNDING, st[1]))
+            # (operands are made anew under the new mode: making a
+            # quantized operand is part of the operation)
+            held.clear()
             out.append(['rmode', st[1]])
         elif st[0] == 'hashseed':
             out.append(['hashseed', os.environ.get('PYTHONHASHSEED')])
